@@ -21,6 +21,8 @@ package yoda
 // ghost: number of values sent on channels by the function under contract, and the last value sent
 //@ ghost ChanSent Int
 //@ ghost ChanLast processingResult
+//@ ghost ChanRecv Int
+//@ ghost ChanLastMsg ReportMsgWithKey
 
 // C19: one raw request yields exactly one result on the channel, carrying the raw request's external id;
 // exit code 255 when the executable cannot be loaded, the verification message cannot be signed or the
@@ -30,3 +32,40 @@ package yoda
 //@ ensures ChanSent == old(ChanSent) + 1
 //@ ensures ChanLast.rawReport.ExternalID == req.externalID
 //@ ensures ChanLast.err != nil ==> ChanLast.rawReport.ExitCode == 255
+
+// C19: one worker is spawned per raw request and exactly one result is collected per raw request: the report
+// carries as many raw reports as the request has raw requests - failed ones included (with exit code 255) - and
+// the collector never waits for a result that no worker sends.
+//@ func handleRawRequests
+//@ modifies ChanSent, ChanLast, ChanRecv, RPCok
+//@ requires ChanSent == ChanRecv
+//@ ensures len(reports) == len(reqs)
+//@ ensures ChanSent == ChanRecv
+//@ loop 0: invariant ChanSent == old(ChanSent) + #i && ChanRecv == old(ChanRecv)
+//@ loop 1: invariant len(reports) == #i && ChanRecv == old(ChanRecv) + #i && ChanSent == old(ChanSent) + len(reqs)
+//@ loop 2: invariant len(reports) == len(reqs) && ChanSent == ChanRecv
+
+// what the chain returns for a request id / a data source id (RPC: assumed)
+//@ spec chainRequest(id Int) types.Request uninterpreted
+//@ func GetRequest
+//@ trusted
+//@ modifies RPCok
+//@ ensures err == nil ==> result == chainRequest(id)
+//@ func GetDataSourceHash
+//@ trusted
+//@ modifies RPCok
+//@ func (c *Context) nextKeyIndex
+//@ trusted
+//@ ensures 0 <= result && result < len(c.keys)
+
+// C19: a request that does not list this validator is skipped without queuing anything; otherwise AT MOST one
+// report is queued, and the queued report is for this request id, from this validator, with exactly one raw
+// report per raw request of the request.
+//@ func handleRequest
+//@ modifies ChanSent, ChanLast, ChanRecv, ChanLastMsg, RPCok
+//@ requires ChanSent == ChanRecv && len(c.keys) > 0
+//@ ensures ChanSent - ChanRecv == 0 || ChanSent - ChanRecv == 1
+//@ ensures !(exists j :: 0 <= j && j < len(chainRequest(id).RequestedValidators) && chainRequest(id).RequestedValidators[j] == addrstr(c.validator)) ==> ChanSent == old(ChanSent)
+//@ ensures ChanSent - ChanRecv == 1 ==> ChanLastMsg.msg.RequestID == id && ChanLastMsg.msg.Validator == addrstr(c.validator) && len(ChanLastMsg.msg.RawReports) == len(chainRequest(id).RawRequests)
+//@ loop 0: invariant !hasMe && (forall j :: 0 <= j && j < #i ==> chainRequest(id).RequestedValidators[j] != addrstr(c.validator))
+//@ loop 1: invariant len(rawRequests) == #i && ChanSent == old(ChanSent) && ChanRecv == old(ChanRecv)
